@@ -179,6 +179,9 @@ def _fix_aspect(mesh):
                 mesh.refine_space(e)
 
 
+UNEVEN_TAG = "uneven initial space grid"
+
+
 def _build_meshes(cctx, cfg, rng):
     out = []
 
@@ -222,6 +225,14 @@ def _build_meshes(cctx, cfg, rng):
                 m.refine_space(e)
     _fix_aspect(m)
     out.append((m, "uniform x1 then graded to the seam x=0/L (3 rounds of refine_space)"))
+    # uneven initial space grid: very short first and last elements at the closing seam (their neighbours do not touch the seam
+    # but lie within 0.4 % of their length of it)
+    if cctx.closed:
+        eps = 0.004 * (cctx.pw[1] - cctx.pw[0])
+        grid = [0.0, eps] + [float(v) for v in cctx.gamma.pw_start[1:-1]] + [cctx.L - eps, float(cctx.gamma.pw_start[-1])]
+        m = MeshParametrized(cctx.gamma, initial_space_mesh=grid)
+        _fix_aspect(m)
+        out.append((m, UNEVEN_TAG + " {} (short elements at the seam)".format([round(g, 5) for g in grid])))
     # seeded random bisection histories
     for r in range(cfg["rand_meshes"]):
         m = new()
@@ -373,6 +384,10 @@ def _sample_pairs(cctx, cfg, rng, target, keep=None):
     """-> list of (mesh_id, i_trial, i_test, class string) stratified by (space class, time class)."""
     buckets = {}
     for mid, mctx in enumerate(cctx.meshes):
+        if mctx.text.startswith(UNEVEN_TAG):
+            # this mesh serves the point clauses of C07 (points across the seam next to a very short element) and the dedicated
+            # extreme-ratio clause of C01 (known finding D9); its pairs are not part of the class-stratified pair sample
+            continue
         cand = _extend_pool(cctx, mctx, cfg, rng)
         descs = [cctx.desc(e) for e in mctx.pool]
         seen = set()
@@ -1201,7 +1216,13 @@ def _c07_point_items(cctx, cfg, rng):
     for mid, mctx in enumerate(cctx.meshes):
         nl = len(mctx.leaves)
         descs = [cctx.desc(e) for e in mctx.leaves]
-        for i in rng.sample(range(nl), min(per, nl)):
+        chosen = rng.sample(range(nl), min(per, nl))
+        if mctx.text.startswith(UNEVEN_TAG):
+            # the neighbours of the very short seam elements: they do not touch the seam but lie within 0.4 % of their length of it
+            eps = min(d[3] - d[2] for d in descs)
+            chosen = [k for k, d in enumerate(descs) if d[3] - d[2] > 2 * eps and
+                      (abs(d[2] - eps) < 1e-12 or abs(d[3] - (cctx.L - eps)) < 1e-12)][:max(per, 4)]
+        for i in chosen:
             t0, t1, xa, xb, piece = descs[i]
             P0, P1 = cctx.pw[piece], cctx.pw[piece + 1]
             ht, hx = t1 - t0, xb - xa
@@ -1457,10 +1478,201 @@ def run(chk, prop, tier="quick", seed=0):
                                        observed=str(obs)[:600], **_jsonable(p)),
                            replay={"code": code, "confirmed": True, "raises_is_violation": True}))
         chk.add_bounded(name, ncalls, 0, bound, rules["no-raise"], [])
+    if prop == "C01":
+        try:
+            run_d9(chk)
+        except BaseException as e:      # noqa
+            chk.error("C01: extreme-ratio clause could not be evaluated: {}: {}".format(type(e).__name__, e))
+    try:
+        run_history(chk, prop, tier, seed)
+    except BaseException as e:      # noqa
+        chk.error("{}: history clause could not be evaluated: {}: {}".format(prop, type(e).__name__, e))
     summary["wall_s"] = round(time.time() - t_start, 2)
     summary["bound"] = bound
     chk.notes.append("bounded.relational {} {}: {:.1f}s, {}".format(prop, tier, summary["wall_s"], bound))
     return summary
+
+
+D9_CODE = '''
+import numpy as np
+from src import parametrization as P
+from src.mesh import MeshParametrized
+from src.single_layer import SingleLayerOperator
+curve = getattr(P, {curve!r})()
+side = float(curve.pw_start[1])
+eps = 0.004 * side
+grid = [0.0, eps] + [float(v) for v in curve.pw_start[1:]]
+mesh = MeshParametrized(curve, initial_space_mesh=grid)
+leaves = {{(float(e.space_interval[0]), float(e.space_interval[1])): e for e in mesh.leaf_elements if e.time_interval == (0, 1) or tuple(map(float, e.time_interval)) == (0.0, 1.0)}}
+te, tr = leaves[(0.0, eps)], leaves[(eps, side)]
+SLq, SLx = SingleLayerOperator(mesh), SingleLayerOperator(mesh, pw_exact=True)
+vq, vx = float(SLq.bilform(tr, te)), float(SLx.bilform(tr, te))
+scale = float(np.sqrt(SLx.bilform(te, te) * SLx.bilform(tr, tr)))
+observed = dict(quadrature=vq, closed_form=vx, metric=abs(vq - vx) / scale, ratio=(side - eps) / eps)
+violated = abs(vq - vx) > 1e-7 * scale
+'''
+
+
+def run_d9(chk):
+    """C01 on a custom tensor initial mesh with two touching LEAVES of length ratio 249 (initial space grid [0, 0.004 s, s, ...]): the
+    singular-quadrature path against the closed form on the same straight side (the closed form agrees with an independent 40-digit
+    mpmath reference to 1e-14 for these pairs, see DESIGN A.3 D9)"""
+    from vlib.replay import run_replay
+    for curve in ("UnitSquare", "PiSquare"):
+        code = D9_CODE.format(curve=curve)
+        res = run_replay(code, True)
+        name = "C01/bounded/{}/quad-vs-closed-form/custom-initial-grid-touching-leaves-of-length-ratio-249".format(curve)
+        if res.get("violated"):
+            chk.add(Ob(name, FAILED, kind="bounded", backend="relational", detail=dict(observed=res.get("observed"), error=res.get("error")),
+                       replay={"code": code, "confirmed": True, "raises_is_violation": True, "outcome": res}))
+        else:
+            chk.add(Ob(name, DISCHARGED, kind="bounded", backend="relational", detail=dict(observed=res.get("observed"))))
+    chk.add_bounded("C01/bounded/custom-initial-grid-extreme-ratio", 4, 2,
+                    "unit square and pi square with initial space grid [0, 0.004 s, s, ...]: the leaf pair [0, 0.004 s] / [0.004 s, s] in the slab [0, 1]",
+                    "|quadrature path - closed form| <= 1e-7 sqrt(D_test D_trial)", [])
+
+
+# ------------------------------------------------------------------------------------------------
+# history independence (state shared between calls, operators, meshes or curves)
+# ------------------------------------------------------------------------------------------------
+def _hist_pairs(cctx, mid, n, rng):
+    pool = cctx.meshes[mid].pool
+    idx = list(range(len(pool)))
+    out, tries = [], 0
+    while len(out) < n and tries < 40 * n:
+        tries += 1
+        i, j = rng.choice(idx), rng.choice(idx)
+        if pool[j].time_interval[1] > pool[i].time_interval[0] and (i, j) not in out:      # causal: non-trivial value
+            out.append((i, j))
+    return out
+
+
+def _hist_points(cctx, mid, i, rng, n=3):
+    e = cctx.meshes[mid].pool[i]
+    t0, t1 = e.time_interval
+    x0, x1 = e.space_interval
+    h = float(x1 - x0)
+    return [(float(t1) + 0.25 * float(t1 - t0) * (k + 1), float(x0) + h * (0.3 + 0.2 * k)) for k in range(n)]
+
+
+def _hist_value(SL, cctx, prop, tr, te, pts):
+    if prop == "C07":
+        return [float(SL.evaluate(tr, t, xh, cctx.gamma.eval(xh))) for t, xh in pts]
+    return [float(SL.bilform(tr, te))]
+
+
+def _hist_fresh(task):
+    prop, curve, mid, i, j, pw = task
+    cctx = _G[curve]
+    mctx = cctx.meshes[mid]
+    SL = SingleLayerOperator(mctx.mesh, pw_exact=pw)
+    if prop == "C07":
+        SL._init_elems([mctx.pool[i]])
+    return _hist_value(SL, cctx, prop, mctx.pool[i], mctx.pool[j], _hist_points(cctx, mid, i, None))
+
+
+def _hist_sequence(task):
+    """one process: three passes over the same pairs (given order / reversed, after calls on another mesh of the curve and on another
+    curve / a newly constructed operator), every value recorded"""
+    prop, curve, other, mid, pairs, pw = task
+    cctx, octx = _G[curve], _G[other]
+    mctx = cctx.meshes[mid]
+    m2 = cctx.meshes[(mid + 1) % len(cctx.meshes)]
+    SLa = SingleLayerOperator(mctx.mesh, pw_exact=pw)
+    SLb = SingleLayerOperator(m2.mesh, pw_exact=pw)
+    SLo = SingleLayerOperator(octx.meshes[0].mesh, pw_exact=pw and octx.straight)
+    if prop == "C07":
+        SLa._init_elems(list(mctx.pool))
+        SLb._init_elems(list(m2.pool))
+        SLo._init_elems(list(octx.meshes[0].pool))
+
+    def val(SL, cc, mc, i, j):
+        return _hist_value(SL, cc, prop, mc.pool[i], mc.pool[j], _hist_points(cc, cc.meshes.index(mc), i, None))
+    # the same parameter rectangles on the other curve (a memo keyed by intervals only would collide here), evaluated BEFORE the first
+    # pass and again between the passes
+    def twin(e):
+        t0, t1, x0, x1, _ = cctx.desc(e)
+        for k in range(len(octx.pw) - 1):
+            if octx.pw[k] <= x0 and x1 <= octx.pw[k + 1]:
+                return octx.elem((t0, t1, x0, x1, k))
+        return None
+
+    def twin_calls():
+        for i, j in pairs:
+            a, b = twin(mctx.pool[i]), twin(mctx.pool[j])
+            if a is not None and b is not None:
+                try:
+                    if prop == "C07":
+                        SLo._init_elems([a])
+                    _hist_value(SLo, octx, prop, a, b, _hist_points(cctx, cctx.meshes.index(mctx), i, None))
+                except BaseException:      # noqa  (the twin call is only there to create history)
+                    pass
+    twin_calls()
+    out = {}
+    out["first-pass-after-calls-on-the-same-parameter-rectangles-of-another-curve"] = [val(SLa, cctx, mctx, i, j) for i, j in pairs]
+    rng = random.Random(5)
+    for i, j in _hist_pairs(cctx, (mid + 1) % len(cctx.meshes), 6, rng):
+        val(SLb, cctx, m2, i, j)
+    for i, j in _hist_pairs(octx, 0, 6, rng):
+        val(SLo, octx, octx.meshes[0], i, j)
+    twin_calls()
+    out["reversed-after-other-meshes-and-curves"] = [val(SLa, cctx, mctx, i, j) for i, j in reversed(pairs)][::-1]
+    SLn = SingleLayerOperator(mctx.mesh, pw_exact=pw)
+    if prop == "C07":
+        SLn._init_elems(list(mctx.pool))
+    out["new-operator-on-the-same-mesh"] = [val(SLn, cctx, mctx, i, j) for i, j in pairs]
+    return out
+
+
+def run_history(chk, prop, tier, seed):
+    """bilform / evaluate are functions of their arguments: the value of a call does not depend on earlier calls, on the order of the
+    calls, or on other operators, meshes and curves alive in the process (bitwise, against one fresh process per call)"""
+    curves = [c for c in _G if (_G[c].straight or prop != "C07")]
+    if not curves:
+        return
+    n_pairs = 10 if tier == "quick" else 24
+    ctx = mp.get_context("fork")
+    n_eval = 0
+    for ci, curve in enumerate(curves):
+        cctx = _G[curve]
+        other = curves[(ci + 1) % len(curves)]
+        rng = random.Random("hist|{}|{}|{}".format(prop, seed, curve))
+        pw = bool(cctx.straight and (ci % 2 == 0) and prop != "C07")
+        pairs = _hist_pairs(cctx, 0, n_pairs, rng)
+        name = "{}/bounded/{}/value-independent-of-call-history".format(prop, curve)
+        bad, det = [], {}
+        try:
+            with ctx.Pool(1, maxtasksperchild=1) as p1:
+                seq = p1.apply(_hist_sequence, ((prop, curve, other, 0, pairs, pw),))
+            with ctx.Pool(min(16, len(pairs)), maxtasksperchild=1) as pf:
+                fresh = pf.map(_hist_fresh, [(prop, curve, 0, i, j, pw) for i, j in pairs], 1)
+            n_eval += 4 * len(pairs)
+            for tag, vals in seq.items():
+                for (i, j), v, f in zip(pairs, vals, fresh):
+                    if v != f:
+                        bad.append(dict(history=tag, pair=(i, j), in_history=v, fresh_process=f,
+                                        trial=cctx.desc(cctx.meshes[0].pool[i]), test=cctx.desc(cctx.meshes[0].pool[j])))
+        except BaseException as e:      # noqa
+            bad.append(dict(raised="{}: {}".format(type(e).__name__, e)))
+        if not bad:
+            chk.add(Ob(name, DISCHARGED, kind="bounded", backend="relational", detail=dict(pairs=len(pairs), pw_exact=pw)))
+        else:
+            code = ("from bounded import relational as R\nimport multiprocessing as mp\nR._build({prop!r}, {tier!r}, {seed!r})\n"
+                    "ctx = mp.get_context('fork')\npairs = {pairs!r}\n"
+                    "with ctx.Pool(1, maxtasksperchild=1) as p1:\n    seq = p1.apply(R._hist_sequence, (({prop!r}, {curve!r}, {other!r}, 0, pairs, {pw!r}),))\n"
+                    "with ctx.Pool(4, maxtasksperchild=1) as pf:\n    fresh = pf.map(R._hist_fresh, [({prop!r}, {curve!r}, 0, i, j, {pw!r}) for i, j in pairs], 1)\n"
+                    "observed = [(tag, p, v, f) for tag, vals in seq.items() for p, v, f in zip(pairs, vals, fresh) if v != f][:4]\n"
+                    "violated = len(observed) > 0\n").format(prop=prop, tier=tier, seed=seed, pairs=pairs, curve=curve, other=other, pw=pw)
+            ok, obs = _confirm(code)
+            if ok:
+                chk.add(Ob(name, FAILED, kind="bounded", backend="relational", detail=dict(first=[_jsonable(b) for b in bad[:3]], n=len(bad)),
+                           replay={"code": code, "confirmed": True, "raises_is_violation": True}))
+            else:
+                chk.error("{}: history dependence seen but not confirmed by the replay ({})".format(name, str(obs)[:200]))
+    chk.add_bounded("{}/bounded/value-independent-of-call-history".format(prop), n_eval, len(curves),
+                    "{} causal pairs per curve on the first mesh; histories: given order, reversed after calls on another mesh of the curve and "
+                    "on another curve, a newly constructed operator".format(n_pairs),
+                    "every value == the value of the same call in a process of its own (bitwise)", [])
 
 
 # ------------------------------------------------------------------------------------------------
